@@ -267,6 +267,19 @@ fn load_known(prop: &str) -> Vec<KnownFinding> {
 }
 
 static PANIC_LOG: Mutex<Vec<String>> = Mutex::new(Vec::new());
+/// Name prefixes of runtime worker threads whose runtime is being torn down by the harness.
+static TEARDOWN_THREADS: Mutex<Vec<String>> = Mutex::new(Vec::new());
+
+/// Marks / unmarks the threads whose name starts with `prefix` as belonging to a runtime that the
+/// harness is shutting down: a panic on such a thread is logged with the tag `[teardown]`.
+pub fn mark_teardown(prefix: &str, on: bool) {
+    let mut g = TEARDOWN_THREADS.lock().unwrap_or_else(|e| e.into_inner());
+    if on {
+        g.push(prefix.to_string());
+    } else {
+        g.retain(|p| p != prefix);
+    }
+}
 static PANIC_QUIET: AtomicBool = AtomicBool::new(true);
 
 /// Installs a process-wide panic hook that records every panic (thread, message, location);
@@ -289,10 +302,11 @@ pub fn install_panic_hook() {
         if !PANIC_QUIET.load(Ordering::Relaxed) || std::env::var_os("VERIF_PANIC_VERBOSE").is_some() {
             eprintln!("panic in thread {name}: {msg} at {loc}");
         }
+        let teardown = TEARDOWN_THREADS.lock().unwrap_or_else(|e| e.into_inner()).iter().any(|p| name.starts_with(p.as_str()));
         PANIC_LOG
             .lock()
             .unwrap_or_else(|e| e.into_inner())
-            .push(format!("{msg} @ {loc}"));
+            .push(format!("{msg} @ {loc}{}", if teardown { " [teardown]" } else { "" }));
     }));
 }
 
